@@ -15,7 +15,7 @@ from mc.cli import jobs as J
 from mc.run import Stats
 
 ASSUME = [
-    "inputs: simple, containers, own JSON report, own CSV report, both, nested reports, unschedulable tasks, CRLF line ends, UTF-8 names; channels: path, '-', no argument; formats json / --csv",
+    "inputs: simple, containers, own JSON report, own CSV report, both, nested reports, unschedulable tasks, CRLF line ends, UTF-8 names, one task per day across the 2024/25 and 2026/27 year ends; channels: path, '-', no argument; formats json / --csv",
     "bad inputs: missing file, directory, empty file, whitespace only, syntax error, not UTF-8, report with an illegal file name, empty stdin",
     "deviations explored: every permutation of every non-cleanup directory listing with >= 2 entries (one deviation per run); faults are C20's business",
     "expected rows: every task in declaration order, id/start/end with dates in %Y-%m-%d-%H:%M taken from the API; report_id = SHA-256 of the input bytes",
@@ -42,6 +42,12 @@ def inputs():
         "nested-reports": render.render({**cont, "reports": [nested, own_json]}).encode(),
         "unschedulable": render.render(unsched).encode(),
         "crlf": render.render(base).replace("\n", "\r\n").encode(),
+        # one task per calendar day across a year end, on a seven-day resource: dates whose ISO week-year, week number or
+        # day-of-year differ from the calendar year's (2024-12-30/31 belong to ISO 2025; 2027-01-01..03 to ISO 2026)
+        "year-end-2024": render.render({"start": "2024-12-27", "dur": "3w", "resources": [{"id": "r1", "hours": [("mon - sun", ["9:00 - 17:00"])]}],
+                                        "tasks": [T(f"d{i}", 480, **({"deps": [f"d{i - 1}"]} if i else {})) for i in range(9)]}).encode(),
+        "year-end-2026": render.render({"start": "2026-12-28", "dur": "3w", "resources": [{"id": "r1", "hours": [("mon - sun", ["9:00 - 17:00"])]}],
+                                        "tasks": [{"id": "g", "children": [T(f"d{i}", 480, **({"deps": [f"!d{i - 1}"]} if i else {})) for i in range(8)]}]}).encode(),
         "utf8": render.render({"resources": [{"id": "r1", "name": "Zoë Müller"}], "tasks": [T("a", 90, name="Grüße – 設計"), T("b", 30, deps=["a"], name="naïve")]}).encode("utf-8"),
     }
     return out
